@@ -501,3 +501,58 @@ Proof.
   destruct (dec_utctime content) as [[sec off]|]; reflexivity.
 Qed.
 Local Close Scope Z_scope.
+
+(* ------------------------------------------------------------------ *)
+(* "label: value" splits in one way only                                *)
+(* ------------------------------------------------------------------ *)
+Definition no_colon (l : bytes) : bool := negb (existsb (N.eqb 58) l).
+
+Lemma split_at_colon : forall a a' x x',
+  no_colon a = true -> no_colon a' = true -> a ++ 58 :: x = a' ++ 58 :: x' -> a = a' /\ x = x'.
+Proof.
+  unfold no_colon. induction a as [|h a IH]; intros a' x x' Ha Ha' E.
+  - destruct a' as [|h' a']; [inversion E; auto|].
+    cbn [app] in E. inversion E; subst. cbn [existsb] in Ha'. rewrite N.eqb_refl in Ha'. discriminate.
+  - destruct a' as [|h' a'].
+    + cbn [app] in E. inversion E; subst. cbn [existsb] in Ha. rewrite N.eqb_refl in Ha. discriminate.
+    + cbn [app] in E. inversion E; subst. cbn [existsb] in Ha, Ha'.
+      rewrite negb_orb in Ha, Ha'. apply andb_true_iff in Ha as [_ Ha]. apply andb_true_iff in Ha' as [_ Ha'].
+      destruct (IH a' x x' Ha Ha' H1) as [-> ->]. auto.
+Qed.
+
+Lemma digits_no_colon : forall l, forallb is_digit l = true -> no_colon l = true.
+Proof.
+  unfold no_colon. induction l as [|d l IH]; intros H; [reflexivity|].
+  cbn [forallb] in H. apply andb_true_iff in H as [Hd Hl]. cbn [existsb]. rewrite negb_orb.
+  apply andb_true_iff. split; [|apply IH; exact Hl].
+  unfold is_digit in Hd. apply andb_true_iff in Hd as [_ Hd]. apply N.leb_le in Hd.
+  apply negb_true_iff. apply N.eqb_neq. lia.
+Qed.
+
+Lemma lookup_name_in : forall tbl k v, lookup_name k tbl = Some v -> In (k, v) tbl.
+Proof.
+  induction tbl as [|[k' v'] tbl IH]; intros k v H; [discriminate|].
+  cbn [lookup_name] in H. destruct (N.eqb_spec k' k).
+  - inversion H; subst. left. reflexivity.
+  - right. apply IH. exact H.
+Qed.
+
+Lemma type_string_no_colon : forall tbl c tag, names_ok tbl = true -> no_colon (type_string_in tbl c tag) = true.
+Proof.
+  intros tbl c tag H. unfold type_string_in.
+  assert (D : no_colon (dec_of_N tag) = true) by (apply digits_no_colon; apply dec_of_N_spec).
+  destruct (c =? 0); [|exact D].
+  destruct (lookup_name tag tbl) as [v|] eqn:E; [|exact D].
+  apply lookup_name_in in E. unfold names_ok in H. apply andb_true_iff in H as [_ H].
+  rewrite forallb_forall in H. specialize (H _ E). apply andb_true_iff in H as [H _]. exact H.
+Qed.
+
+Lemma label_value_unambiguous : forall c tag v c' tag' v',
+  type_string c tag ++ bs ": " ++ v = type_string c' tag' ++ bs ": " ++ v' ->
+  type_string c tag = type_string c' tag' /\ v = v'.
+Proof.
+  intros c tag v c' tag' v' H. cbn [bs bytes_of_string app] in H.
+  change (N_of_ascii ":") with 58 in H.
+  apply split_at_colon in H as [H1 H2]; try (apply type_string_no_colon; exact names_ok_now).
+  split; [exact H1|]. inversion H2. reflexivity.
+Qed.
